@@ -62,6 +62,11 @@ if 0:
 else:
     w = 1
 w
+acc = 0
+for i in [1, 2.0, 'three']:
+    acc += i
+    i
+acc
 '''
 DICTS = '''d1 = {1: 'a', 'a': 1, "b": 2, 'long key': 0}
 d2 = {1.0: 'b', 3: 3, "a": 4, 'b"c': 5, 2: 0, "long key": 1}
@@ -119,8 +124,9 @@ def sources(root):
 
     c = HIER + 'x.'
     add('hier', c, [
-        q('infer', c, 'x.m(1)'), q('infer', c, 'y\n'), q('infer', c, 'r = '), q('infer', c, 'v = '), q('infer', c, '    e\n', 4),
-        q('infer', c, 'res = '), q('infer', c, '\nw\n', 1),
+        q('infer', c, 'x.m(1)'), q('infer', c, 'y\n'), q('infer', c, 'r = '), q('infer', c, 'v = '),
+        q('infer', c, '    e\n', 4),
+        q('infer', c, 'res = '), q('infer', c, '\nw\n', 1), q('infer', c, '\nacc\n', 1), q('infer', c, '    i\n', 4),
         q('goto', c, 'x.m(1)', 2), q('help', c, 'x.m(1)', 2), q('get_signatures', c, 'x.m(1)', 4),
         q('goto', c, 'x.shared', 2), q('goto', c, 'D().m', 4), q('goto', c, 'def m(self, *args)', 4),
         q('complete', c, 'x.', 2, nth=c.count('x.') - 1), q('get_references', c, 'shared = 1'),
@@ -281,12 +287,14 @@ def run(repo, seed, tier):
     with ThreadPoolExecutor(max_workers=14) as ex:
         answers = dict(zip(tasks, ex.map(child, tasks)))
 
-    violations, counts, samples, nontrivial = [], {}, [], set()
+    violations, counts, samples, nontrivial, reported = [], {}, [], set(), set()
     evaluations = 0
 
     def report(label, src, session, pos, detail):
+        label += ' [%s]' % src['queries'][session[pos]][0]
         counts[label] = counts.get(label, 0) + 1
-        if len(violations) < 50:
+        if len(violations) < 50 and (label, src['name'], session[pos]) not in reported:     # one example per query
+            reported.add((label, src['name'], session[pos]))
             code = src['code'] if len(src['code']) < 700 else src['code'][:300] + ' ... ' + src['code'][-150:]
             violations.append({'label': label, 'observed': detail[:700],
                                'input': 'source %s = %r; ONE Script(code, path=%r, project=Project(%r)) asked in this order '
@@ -304,7 +312,7 @@ def run(repo, seed, tier):
             evaluations += len(session) * len(variants)
             base = got[variants[0]]
             nontrivial.update((si, qi) for qi, r in zip(session, base) if r and isinstance(r, list))
-            if len(samples) < 3 and len(session) > 2 and k % 5 == 3:
+            if len(samples) < 3 and len(session) > 2 and si % 4 == 0 and all(x['source'] != src['name'] for x in samples):
                 samples.append({'source': src['name'], 'session': [src['queries'][i][:3] for i in session],
                                 'first answer': base[0][:2]})
             # how far the session is comparable: in corpus files an internal exception is an artefact of the empty
@@ -328,7 +336,9 @@ def run(repo, seed, tier):
                 seen, bad = {}, None
                 for pos, qi in enumerate(session[:upto[v]]):
                     first = seen.setdefault(qi, pos)
-                    fresh = answers[(g, v)][fresh_at[(si, qi)]][0] if len(session) > 1 and (si, qi) in fresh_at else got[v][pos]
+                    fresh = got[v][pos]
+                    if len(session) > 1 and (si, qi) in fresh_at:
+                        fresh = answers[(g, v)][fresh_at[(si, qi)]][0]
                     if got[v][pos] != got[v][first]:
                         bad = (LBL_AGAIN, 'answer #%d' % first, got[v][first])
                     elif got[v][pos] != fresh:
